@@ -292,6 +292,7 @@ type case14 struct {
 	Value  *vspec     `json:"value,omitempty"`
 	Value2 *vspec     `json:"value2,omitempty"` // second value for the last-write-wins law (put)
 	FS     *fsSpec    `json:"fs,omitempty"`     // field spec (op fieldspec)
+	FSL    []*fsSpec  `json:"fsl,omitempty"`    // field specs of an fsslice.Filter (op fsslice); FSL[0] == FS
 	Probes [][]string `json:"probes,omitempty"` // frame probes (paths q) recorded for replay
 }
 
@@ -327,6 +328,8 @@ func exec14On(doc *kyaml.RNode, c case14) (cls string, found *kyaml.RNode, msg s
 			found, e = doc.Pipe(kyaml.LookupCreate(kyaml.ScalarNode, c.Path...), kyaml.FieldSetter{Value: c.Value.build()})
 		case "fieldspec":
 			_, e = doc.Pipe(c.FS.filter(nil))
+		case "fsslice":
+			_, e = doc.Pipe(sliceFilter14(c.FSL, nil))
 		default:
 			return fmt.Errorf("bad op")
 		}
@@ -354,6 +357,8 @@ func exec14Err(doc *kyaml.RNode, c case14) (string, *kyaml.RNode, error) {
 		found, e = doc.Pipe(kyaml.LookupCreate(kyaml.ScalarNode, c.Path...), kyaml.FieldSetter{Value: c.Value.build()})
 	case "fieldspec":
 		_, e = doc.Pipe(c.FS.filter(nil))
+	case "fsslice":
+		_, e = doc.Pipe(sliceFilter14(c.FSL, nil))
 	default:
 		e = fmt.Errorf("bad op")
 	}
@@ -798,6 +803,8 @@ func laws14doc(s sink, c case14, d *docCtx14, probes []probe14) (cls string, got
 	switch c.Op {
 	case "fieldspec":
 		return lawsFS14(s, c, d)
+	case "fsslice":
+		return lawsFSSlice14(s, c, d)
 	case "lookup":
 		// C14_lookup_pure (checked by the deferred comparison), no panic
 		cls, found, msg := lookupOn(d.orig, c.Path)
@@ -1009,6 +1016,10 @@ func caseTerm14(c case14, cls string, doc, found *kyaml.RNode) (string, bool) {
 		op = c.FS.coqOp()
 		vals["MARK"] = true
 		vals["MV"] = true
+	case "fsslice":
+		op = coqSliceOp14(c.FSL)
+		vals["MARK"] = true
+		vals["MV"] = true
 	}
 	nonstr := []string{}
 	for _, s := range sortedKeys(vals) {
@@ -1116,7 +1127,11 @@ func runC14(r *Run, rng *Rng, tier string) error {
 		runOne14(r, gen(rng.Fork()), true)
 	}
 	for i := 0; i < nFS; i++ {
-		runOne14(r, genFSCase14(rng.Fork()), true)
+		if i%6 == 5 {
+			runOne14(r, genFSSliceCase14(rng.Fork()), true)
+		} else {
+			runOne14(r, genFSCase14(rng.Fork()), true)
+		}
 	}
 	for i := 0; i < nLaw; i++ {
 		g := rng.Fork()
@@ -1133,7 +1148,11 @@ func runC14(r *Run, rng *Rng, tier string) error {
 		runOne14(r, c, false)
 	}
 	for i := 0; i < nFSLaw; i++ {
-		runOne14(r, genFSCase14(rng.Fork()), false)
+		if i%6 == 5 {
+			runOne14(r, genFSSliceCase14(rng.Fork()), false)
+		} else {
+			runOne14(r, genFSCase14(rng.Fork()), false)
+		}
 	}
 	// exhaustive small scope (law oracles only; a stride sample also goes to the model)
 	exhaustive14(r, tier)
@@ -1150,11 +1169,13 @@ func runOne14(r *Run, c case14, toModel bool) {
 	r.Count("class/"+c.Op, cls)
 	if c.Op == "fieldspec" {
 		c.FS.count(r, c, cls, doc)
+	} else if c.Op == "fsslice" {
+		r.Count("fsslice_len", fmt.Sprint(len(c.FSL)))
 	} else {
 		r.Count("path_len", fmt.Sprint(len(c.Path)))
 	}
 	nontrivial := cls == ClsOk && (found != nil)
-	if c.Op == "fieldspec" && cls == ClsOk {
+	if (c.Op == "fieldspec" || c.Op == "fsslice") && cls == ClsOk {
 		if orig, err := kyaml.Parse(c.Doc); err == nil {
 			nontrivial = docString(orig) != docString(doc)
 		}
